@@ -185,7 +185,9 @@ def run(chk, gate, status):
     gens = make_cases(chk)
     chk.assumptions += ["stocks hold >= 5 mmol of solute: create_solution_from rounds the stock's solute to 1e-10 mol and its volume to 1e-10 mL, results are exact to ~1e-7 only; read-back tolerance 1e-5",
                         "enzymes occur as bystanders in the stock (enzyme solutes cannot be expressed: the library rejects activity numerators here)"]
-    return histcheck.run(chk, gens, oracle, 'C12', RULE, nontrivial, rtol=1e-6)
+    cov = histcheck.run(chk, gens, oracle, 'C12', RULE, nontrivial, rtol=1e-6)
+    cov['operations_under_configuration_variants'] = histcheck.variants(chk, gens, oracle, 'C12v', limit=10 if chk.tier == 'quick' else 60)
+    return cov
 
 
 def replay(path):
